@@ -170,6 +170,9 @@ extern const bg_real bg_zero_real;
 typedef struct { bg_bool hasP, hasQ; bg_size restCount; } bg_set_u;
 typedef struct { bg_size n; bg_size vP, vQ; } bg_vec_sz;
 extern bg_size bg_scratch_sz;
+/* ghost (lemma L7): the pair of the most recent label lookup */
+typedef struct { VertexIndex src, dst; } bg_ghost_lookup_t;
+extern bg_ghost_lookup_t bg_ghost_lookup;
 typedef struct { bg_size n; bg_vec_sz rowP, rowQ; bg_size m; } bg_mat_sz;
 extern bg_vec_sz bg_scratch_vec_sz;
 /* clean cache, frontier untouched (functions that cannot mutate a graph) */
